@@ -227,6 +227,20 @@ var nestTpls = []nestTpl{
 	{"js", "arrow", "x=", "a=>", "a", "", "", ""},
 	{"js", "arrow-paren", "x=", "(a)=>", "a", "", "", ""},
 	{"js", "async-arrow", "x=", "async a=>", "a", "", "", ""},
+	{"js", "async-call", "x=", "async(", "a", ")", "", ""},
+	{"js", "async-call-args", "x=", "async(a,", "a", ")", "", ""},
+	{"js", "async-arrow-default", "x=", "async(a=", "a", ")=>a", "", ""},
+	{"js", "opt-call", "x=", "a?.(", "a", ")", "", ""},
+	{"js", "opt-index", "x=a", "?.[a]", "", "", "", ""},
+	{"js", "new-call", "x=", "new a(", "a", ")", "", ""},
+	{"js", "import-call", "x=", "import(", "a", ")", "", ""},
+	{"js", "tagged-nest", "x=", "a`${", "a", "}`", "", ""},
+	{"js", "arrow-body-paren", "x=", "a=>(", "a", ")", "", ""},
+	{"js", "await-paren", "x=", "await(", "a", ")", "", ""},
+	{"js", "yield-paren", "function*g(){x=", "yield(", "a", ")", "}", ""},
+	{"js", "super-call", "class A extends B{constructor(){", "super(", "a", ")", "}}", ""},
+	{"js", "object-spread", "x=", "{...", "a", "}", "", ""},
+	{"js", "class-computed", "x=", "class{[", "a", "](){}}", "", ""},
 	{"js", "assign", "x", "=x", "", "", "", ""},
 	{"js", "cond", "x=", "a?a:", "a", "", "", ""},
 	{"js", "cond-mid", "x=", "a?", "a", ":a", "", ""},
